@@ -387,7 +387,7 @@ class _NS:
         self.__dict__.update(kw)
 
 
-@obligation("C05", "steps", ensures=["O-C05-steps.count", "O-C05-steps.too-short", "O-C05-steps.delta"], fns=[SC + "Scenario.propagateTo"], mode="F", assumes=FASSUME + ["a `for _ in range(n)` loop performs exactly n iterations (Python semantics)"],
+@obligation("C05", "steps", ensures=["O-C05-steps.count", "O-C05-steps.too-short", "O-C05-steps.delta", "O-C05-steps.quotient"], fns=[SC + "Scenario.propagateTo"], mode="F", assumes=FASSUME + ["a `for _ in range(n)` loop performs exactly n iterations (Python semantics)"],
             note="propagateTo(JD(start + c + D)) with the clock at c seconds performs exactly floor(D/step) calls of stepForward (D = q*step + r whole seconds, step >= 1) and raises ValueError iff D < step; Julian dates by the proved contract of getJulianDate")
 def steps(vc):
     vc.fmode(True)
@@ -420,6 +420,10 @@ def steps(vc):
         tst = Tgt().convertToScenarioTime(jd_start)
         rd = vc.as_code(lambda: shims.s_around(tst - c0))
         vc.cut("O-C05-steps.delta", rd == D)
+        e = sym.SNum(z3.simplify(sym._real(rd.t) / sym._real(step.t)))  # exact quotient (no rounding)
+        vc.cut("O-C05-steps.quotient", vc.floor(e) == q)
+        quo = vc.as_code(lambda: rd / step)
+        vc.cut("O-C05-steps.quotient", vc.And(quo >= q, quo < q + 1))
         f = vc.fn(SC + "Scenario.propagateTo")
         try:
             f(scn, Tgt())
@@ -436,6 +440,7 @@ def steps(vc):
         vc.ensure("O-C05-steps.count", True)
         vc.ensure("O-C05-steps.too-short", True)
         vc.ensure("O-C05-steps.delta", True)
+        vc.ensure("O-C05-steps.quotient", True)
 
 
 SymDT.isoformat = lambda self, timespec=None: self
